@@ -9,10 +9,13 @@ import (
 	"fmt"
 	"hash/fnv"
 	"os"
+	"runtime"
 	"runtime/debug"
 	"sort"
+	"strings"
 	"sync"
 	"testing"
+	"time"
 )
 
 // Violation describes why a case breaks the property.
@@ -278,4 +281,61 @@ func Guard(f func() *Violation) (v *Violation) {
 		}
 	}()
 	return f()
+}
+
+// Watch runs f and, should it not come back within d, looks for the evidence of a deadlock: goroutines that sit in
+// a lock acquisition (or a wait that nobody can end) below a frame of the library, in the same place in two stack
+// dumps taken seconds apart.  Only then is a violation reported; a check that is merely slow is waited for (the
+// driver's own time limit then calls the run inconclusive).  The stuck goroutines are left behind: the process is
+// about to fail anyway.
+func Watch(d time.Duration, lib string, f func() *Violation) *Violation {
+	done := make(chan *Violation, 1)
+	go func() { done <- Guard(f) }()
+	select {
+	case v := <-done:
+		return v
+	case <-time.After(d):
+	}
+	first := blockedInLibrary(lib)
+	select {
+	case v := <-done:
+		return v
+	case <-time.After(3 * time.Second):
+	}
+	second := blockedInLibrary(lib)
+	var stuck []string
+	for id, st := range first {
+		if second[id] == st {
+			stuck = append(stuck, st)
+		}
+	}
+	if len(stuck) == 0 {
+		return <-done // slow, not stuck: wait
+	}
+	sort.Strings(stuck)
+	return V("deadlock: after %v, %d goroutine(s) are waiting for a lock inside the library and have not moved for 3 s\n%s", d, len(stuck), strings.Join(stuck, "\n\n"))
+}
+
+// blockedInLibrary maps goroutine ids to their stacks, for goroutines blocked on a mutex below a library frame.
+func blockedInLibrary(lib string) map[string]string {
+	buf := make([]byte, 1<<22)
+	buf = buf[:runtime.Stack(buf, true)]
+	out := map[string]string{}
+	for _, g := range strings.Split(string(buf), "\n\n") {
+		head := g
+		if i := strings.Index(g, "\n"); i >= 0 {
+			head = g[:i]
+		}
+		waiting := strings.Contains(head, "sync.Mutex.Lock") || strings.Contains(head, "sync.RWMutex") || strings.Contains(head, "semacquire")
+		if waiting && strings.Contains(g, lib) {
+			fields := strings.Fields(head)
+			if len(fields) >= 2 {
+				// drop the "N minutes" part of the header so that two dumps compare equal
+				if k := strings.Index(g, "]:"); k >= 0 {
+					out[fields[1]] = fields[0] + " " + fields[1] + " [blocked]" + g[k+1:]
+				}
+			}
+		}
+	}
+	return out
 }
